@@ -451,12 +451,15 @@ func (c *Client) SendAndRead(ctx context.Context, dest *net.UDPAddr, msg *dhcpv6
 		c.logger.PrintMessage("sent message", msg)
 		defer rem()
 
+		// One deadline per try: re-arming the timer on every loop iteration
+		// would let a stream of non-matching responses postpone it forever.
+		deadline := time.After(timeout)
 		for {
 			select {
 			case <-c.done:
 				return ErrNoResponse
 
-			case <-time.After(timeout):
+			case <-deadline:
 				return errDeadlineExceeded
 
 			case <-ctx.Done():
